@@ -184,7 +184,7 @@ class WrappersDriver:
         if not self.metrics:
             self.traced_obs = (label, "no-completion", "none")
             return
-        from haiway.helpers.tracing import ArgumentsTrace, ResultTrace
+        from haiway import ArgumentsTrace, ResultTrace
         found = {type(m).__name__: m for m in self.metrics[0].metrics(merge=lambda cur, rec: rec)}
         at, rt = found.get("ArgumentsTrace"), found.get("ResultTrace")
         cargs, ckw = CALLS[self.s["sig"]]
